@@ -652,10 +652,12 @@ def _check_estep(tr, kind, prev_model, obs, emb, z, aff, qf, sam, eps, op,
         tr.count('aligner_mapping_comparisons')
         return None
     d = float(np.max(np.abs(exp - aff)))
+    S.note('estep_affiliation', d, 1e-10)
     if not d <= 1e-10:
         return f'affiliation differs from the Bayes posterior of the previous ' \
                f'model (pi_k p_k / sum, mask, clip) by {d:.3e}'
     if cacg_based:
+        S.note('estep_quadratic_form', float(np.max(np.abs(qf - q_exp) / q_tol)), 1.0)
         if not np.all(np.abs(qf - q_exp) <= q_tol):
             r = float(np.max(np.abs(qf - q_exp) / np.abs(q_exp)))
             return f'quadratic form differs from z^H B^-1 z of the previous ' \
@@ -813,6 +815,7 @@ def run_tyler(tr, op, program):
         q = np.einsum('nd,de,ne->n', z.conj(), Ci, z).real
     Cm = S.impl_cacg_covariance(model, ())
     r = S._rel(Cm, C)
+    S.note('tyler_n_steps', r, 1e-7)
     if not r <= 1e-7:
         tr.viol('R1', entry, f'fit(iterations={op["iterations"]}) differs from '
                 f'{op["iterations"]} eigenvalue-normalised Tyler steps by {r:.3e}')
@@ -834,6 +837,7 @@ def run_tyler(tr, op, program):
         tr.count('tyler_fixed_point_checks')
         if lam[0] > 1e-6 * lam[-1]:
             r = S._rel(T, C2)
+            S.note('tyler_fixed_point', r, 1e-5)
             if not r <= 1e-5:
                 tr.viol('fixed_point', entry, f'300 Tyler iterations are not at the '
                         f'fixed point B ~ (D/N) sum z z^H / (z^H B^-1 z): residual {r:.3e}')
@@ -900,6 +904,7 @@ def run_repetition(tr, op, program):
             tr.count('probe:repetition_skipped_floor_guard')
             return
     for name, d in _param_difference(kind, a, b, opts):
+        S.note('repetition:' + name, d, 1e-6)
         if not d <= 1e-6:
             tr.viol('repetition', entry, f'integer saliency vs repeated '
                     f'observations after {op["iterations"]} iterations: {name} '
@@ -924,6 +929,7 @@ RUNNERS = {'mixfit': run_mixfit, 'distfit': run_distfit, 'tyler': run_tyler,
 
 def execute(program):
     tr = _T(program)
+    S.MARGINS.clear()
     for op in program['ops']:
         RUNNERS[op['op']](tr, op, program)
         if tr.violations:
@@ -932,6 +938,7 @@ def execute(program):
     sig = hashlib.sha1(repr(tr.sched).encode()).hexdigest()[:16]
     digest = hashlib.sha256(json.dumps(tr.log, default=str).encode()).hexdigest()[:24]
     return {'digest': digest, 'signature': sig, 'nontrivial': tr.compared >= 1,
+            'maxes': dict(S.MARGINS),
             'counters': tr.counters,
             'sets': {k: sorted(v) for k, v in tr.sets.items()},
             'violations': tr.violations}
